@@ -328,6 +328,12 @@ func genC08(p *Plan, tier string) {
 			e["applyProbability"], m.HasProb, m.Prob = 0.0, true, 0
 		default:
 			pr := Round2(r.Float64())
+			switch r.Intn(10) {
+			case 0, 1, 2:
+				pr = r.Float64() // all the digits a float64 has
+			case 3:
+				pr = r.PickF(1e-9, 4e-9, 1e-12, 0.9999999999, 0.30000000000000004, 0.6666666666666666)
+			}
 			e["applyProbability"], m.HasProb, m.Prob = pr, true, pr
 		}
 		if r.Bool(0.2) {
